@@ -92,6 +92,10 @@ static int parseConvertElement(MPT_INTERFACE(convertable) *conv, MPT_TYPE(type) 
 			((const char **) dest)[0] = key;
 		}
 		len = txt - it->val;
+		/* a consumed separator is the byte that ends the element */
+		if ((size_t) (txt - key) > klen && !isspace((unsigned char) txt[-1])) {
+			--len;
+		}
 	}
 	/* convert to target type */
 	else if ((len = mpt_convert_string(it->val, type, dest)) < 0) {
